@@ -401,12 +401,14 @@ func BufferWhen[T, B any](boundary Observable[B]) func(Observable[T]) Observable
 
 			flush := func(ctx context.Context) {
 				// send even if buffer is empty
+				verifPoint("operator_transformations:BufferWhen:lock#0", nil)
 				mu.Lock()
 
 				tmp := buffer
 				buffer = []T{}
 
 				mu.Unlock()
+				verifPoint("operator_transformations:BufferWhen:unlocked#0", nil)
 
 				destination.NextWithContext(ctx, tmp)
 			}
@@ -418,11 +420,13 @@ func BufferWhen[T, B any](boundary Observable[B]) func(Observable[T]) Observable
 					subscriberCtx,
 					NewObserverWithContext(
 						func(ctx context.Context, value T) {
+							verifPoint("operator_transformations:BufferWhen:lock#1", nil)
 							mu.Lock()
 
 							buffer = append(buffer, value)
 
 							mu.Unlock()
+							verifPoint("operator_transformations:BufferWhen:unlocked#1", nil)
 						},
 						destination.ErrorWithContext,
 						func(ctx context.Context) {
@@ -451,11 +455,13 @@ func BufferWhen[T, B any](boundary Observable[B]) func(Observable[T]) Observable
 
 			return func() {
 				subscriptions.Unsubscribe()
+				verifPoint("operator_transformations:BufferWhen:lock#2", nil)
 				mu.Lock()
 
 				buffer = []T{}
 
 				mu.Unlock()
+				verifPoint("operator_transformations:BufferWhen:unlocked#2", nil)
 			}
 		})
 	}
@@ -483,12 +489,14 @@ func BufferWithTimeOrCount[T any](size int, duration time.Duration) func(Observa
 
 			flush := func(ctx context.Context) {
 				// send even if buffer is empty
+				verifPoint("operator_transformations:BufferWithTimeOrCount:lock#0", nil)
 				mu.Lock()
 
 				tmp := buffer
 				buffer = []T{}
 
 				mu.Unlock()
+				verifPoint("operator_transformations:BufferWithTimeOrCount:unlocked#0", nil)
 
 				destination.NextWithContext(ctx, tmp)
 			}
@@ -500,12 +508,14 @@ func BufferWithTimeOrCount[T any](size int, duration time.Duration) func(Observa
 					subscriberCtx,
 					NewObserverWithContext(
 						func(ctx context.Context, value T) {
+							verifPoint("operator_transformations:BufferWithTimeOrCount:lock#1", nil)
 							mu.Lock()
 
 							buffer = append(buffer, value)
 							isFull := len(buffer) >= size
 
 							mu.Unlock()
+							verifPoint("operator_transformations:BufferWithTimeOrCount:unlocked#1", nil)
 
 							if isFull {
 								flush(ctx)
@@ -538,11 +548,13 @@ func BufferWithTimeOrCount[T any](size int, duration time.Duration) func(Observa
 
 			return func() {
 				subscriptions.Unsubscribe()
+				verifPoint("operator_transformations:BufferWithTimeOrCount:lock#2", nil)
 				mu.Lock()
 
 				buffer = []T{}
 
 				mu.Unlock()
+				verifPoint("operator_transformations:BufferWithTimeOrCount:unlocked#2", nil)
 			}
 		})
 	}
@@ -623,6 +635,7 @@ func WindowWhen[T, B any](boundary Observable[B]) func(Observable[T]) Observable
 
 			flush := func(ctx context.Context, skipNew bool) {
 				// reset Observable even if no notification were sent
+				verifPoint("operator_transformations:WindowWhen:lock#0", nil)
 				mu.Lock()
 
 				tmp := window
@@ -634,6 +647,7 @@ func WindowWhen[T, B any](boundary Observable[B]) func(Observable[T]) Observable
 				}
 
 				mu.Unlock()
+				verifPoint("operator_transformations:WindowWhen:unlocked#0", nil)
 
 				if tmp != nil { // nil on first call of flush()
 					tmp.CompleteWithContext(ctx)
@@ -653,11 +667,13 @@ func WindowWhen[T, B any](boundary Observable[B]) func(Observable[T]) Observable
 					subscriberCtx,
 					NewObserverWithContext(
 						func(ctx context.Context, value T) {
+							verifPoint("operator_transformations:WindowWhen:lock#1", nil)
 							mu.Lock()
 
 							tmp := window
 
 							mu.Unlock()
+							verifPoint("operator_transformations:WindowWhen:unlocked#1", nil)
 
 							tmp.NextWithContext(ctx, value)
 						},
@@ -720,12 +736,14 @@ func SampleWhen[T, t any](tick Observable[t]) func(Observable[T]) Observable[T] 
 					subscriberCtx,
 					NewObserverWithContext(
 						func(ctx context.Context, value T) {
+							verifPoint("operator_transformations:SampleWhen:lock#0", nil)
 							mu.Lock()
 
 							last = lo.T2(ctx, value)
 							hasValue = true
 
 							mu.Unlock()
+							verifPoint("operator_transformations:SampleWhen:unlocked#0", nil)
 						},
 						destination.ErrorWithContext,
 						destination.CompleteWithContext,
@@ -738,6 +756,7 @@ func SampleWhen[T, t any](tick Observable[t]) func(Observable[T]) Observable[T] 
 					subscriberCtx,
 					NewObserverWithContext(
 						func(ctx context.Context, value t) {
+							verifPoint("operator_transformations:SampleWhen:lock#1", nil)
 							mu.Lock()
 
 							if hasValue {
@@ -749,6 +768,7 @@ func SampleWhen[T, t any](tick Observable[t]) func(Observable[T]) Observable[T] 
 							}
 
 							mu.Unlock()
+							verifPoint("operator_transformations:SampleWhen:unlocked#1", nil)
 						},
 						destination.ErrorWithContext,
 						destination.CompleteWithContext,
